@@ -221,6 +221,7 @@ type symEval struct {
 	counter  int
 	maxVisit int
 	maxPaths int
+	steps    int64
 	paths    int
 	err      error
 }
@@ -531,8 +532,20 @@ func zeroFor(t types.Type) SV {
 	return symOpaque("zero:" + typeStr(t))
 }
 
+var symMaxSteps, symStepsSeen int64 = 300000, 0
+
 func (ev *symEval) runBlock(fr *symFrame, b *ssa.BasicBlock, idx int, st *symState) []outcome {
 	if ev.err != nil {
+		return nil
+	}
+	// a budget of block entries per evaluation: a program that makes the evaluation fork without end (state taken
+	// from a pool, say) ends as "undecided" instead of exhausting the machine
+	ev.steps++
+	if ev.steps > symStepsSeen {
+		symStepsSeen = ev.steps
+	}
+	if ev.steps > symMaxSteps {
+		ev.err = fmt.Errorf("evaluation budget exhausted (%d block entries) in %s", symMaxSteps, fname(fr.fn))
 		return nil
 	}
 	if idx == 0 {
